@@ -86,6 +86,16 @@ func c05Format(w *rt.W, id uu.ID, slow bool) {
 				fail("format-verb", "Sprintf "+vb.verb, s, vb.want)
 			}
 		}
+		for _, verb := range letterVerbs { // every letter: only %u selects the URN form, nothing changes the letter case
+			wantV := want
+			if verb == "%u" {
+				wantV = wantURN
+			}
+			if s := fmt.Sprintf(verb, id); s != wantV {
+				fail("format-verb", "Sprintf "+verb, s, wantV)
+			}
+		}
+		w.Eval(49)
 		// existing content that ends like the URN scheme must not change what is appended
 		for _, pre := range []string{"urn:uuid:", "see urn:uuid:", "URN:UUID:", "urn:uuid"} {
 			if b, err := uu.DefaultFormatter([]byte(pre), id, uu.FormatURN); err != nil || string(b) != pre+wantURN {
